@@ -543,6 +543,9 @@ class Unit:
             return ('p', a0[0])
         if name in ('std::array::const_iterator', 'std::array::const_pointer', 'std::vector::const_iterator', 'std::vector::const_pointer'):
             return ('p', ('c', a0[0]))
+        if name in ('__gnu_cxx::__alloc_traits::value_type', '__gnu_cxx::__alloc_traits::reference', '__gnu_cxx::__alloc_traits::const_reference'):
+            x = a0[1] if len(a0) > 1 else a0[0][1][-1][1][0]
+            return x if name.endswith('value_type') else ('r', x if 'const' not in name else ('c', x))
         if name == '__gnu_cxx::__normal_iterator':
             x = comps[1][1][0]
             return x  # pointer type
@@ -1470,6 +1473,8 @@ class Emitter(Unit):
 
     def init_into(self, target, ty, e, fc):
         """statement(s) initialising lvalue `target` of type ty from initializer expression node e"""
+        if T.is_ref(ty):
+            return '%s = %s;' % (target, self.addr(e, fc))     # reference member: stores the address
         e0 = self.skip_wrappers(e)
         if e0['kind'] == 'CXXConstructExpr':
             r = self.construct(e0, fc, target)
@@ -1883,9 +1888,17 @@ class Emitter(Unit):
             if d is not None and self.vla_type(d, fc) is not None:
                 return r['name']
             ty = self.resolve(T.parse(r['type']['qualType']), fc.fid) if d is None else self.ntype(d, fc.fid)
+            nm = r.get('name')
+            if not nm:
+                # unnamed parameter (implicit copy/move constructors): same _p<i> name as in the signature
+                ps = [c for c in (self.ix.get(fc.fid).get('inner', []) or []) if c.get('kind') == 'ParmVarDecl']
+                ids = [c['id'] for c in ps]
+                if r['id'] not in ids:
+                    raise Unsupported('reference to an unnamed declaration')
+                nm = '_p%d' % ids.index(r['id'])
             if T.is_ref(ty):
-                return '(*%s)' % r['name']
-            return r['name']
+                return '(*%s)' % nm
+            return nm
         if rk == 'EnumConstantDecl':
             return str(self.const_eval(e, fc.fid))
         if rk in FUNC_KINDS:
@@ -2159,7 +2172,7 @@ class Emitter(Unit):
         if q == 'std::vector':
             if len(args) == 0:
                 if target is None:
-                    raise Unsupported('vector temporary')
+                    return '((struct %s){0})' % cn     # empty vector; the model allocates lazily
                 return '@stmt:%s__ctor(&%s);' % (cn, target)
             if len(args) == 1:
                 a0t = T.strip_ref(self.ntype(args[0], fc.fid))
@@ -2169,6 +2182,12 @@ class Emitter(Unit):
                     if target is None:
                         raise Unsupported('vector copy temporary')
                     return '@stmt:%s__copy(&%s, %s);' % (cn, target, self.addr(args[0], fc))
+            ct = e.get('ctorType', {}).get('qualType', '')
+            if ct.startswith('void (std::vector::size_type') or ct.startswith('void (size_type'):
+                # vector(n): n value-initialised elements (the allocator default argument is ignored)
+                if target is None:
+                    raise Unsupported('sized vector temporary')
+                return '@stmt:%s__ctor_n(&%s, %s);' % (cn, target, self.expr(args[0], fc))
             raise Unsupported('std::vector constructor with arguments %s' % e.get('ctorType'))
         raise Unsupported('construction of ' + q)
 
@@ -2376,6 +2395,35 @@ class Emitter(Unit):
                 return '%s__%s(%s)' % (cn, name.lstrip('c') if name in ('cbegin', 'cend') else name, oa)
             if name in ('reserve', 'resize'):
                 return '%s__%s(%s, %s)' % (cn, name, oa, ', '.join(self.expr(a, fc) for a in args))
+            if name == 'emplace_back' and (len(args) != 1 or (T.strip_const(el)[0] == 'n' and T.strip_ref(self.ntype(args[0], fc.fid)) != T.strip_const(el) and T.strip_const(el)[1][0][0] != 'std')):
+                # construct in place: new slot (zero-initialised), then the matching user constructor
+                slot = '%s__emplace_slot(%s)' % (cn, oa)
+                if len(args) == 0:
+                    return slot
+                elt = T.strip_const(el)
+                if elt[0] != 'n' or elt[1][0][0] == 'std':
+                    raise Unsupported('emplace_back with %d args into vector of %s' % (len(args), T.show(elt)))
+                rec = self.find_record(elt[1])
+                cands = []
+                for c in walk(rec):
+                    if c.get('kind') == 'CXXConstructorDecl' and has_body(c) and not self.is_pattern_fn(c['id']):
+                        ps = [p for p in c['inner'] if p.get('kind') == 'ParmVarDecl']
+                        if len(ps) == len(args):
+                            ok = True
+                            for p, a in zip(ps, args):
+                                try:
+                                    if self.unconst_deep(T.strip_ref(self.ntype(p, c['id']))) != self.unconst_deep(T.strip_ref(self.ntype(a, fc.fid))):
+                                        ok = False
+                                except Unsupported:
+                                    ok = False
+                            if ok:
+                                cands.append(c)
+                if len(cands) != 1:
+                    raise Unsupported('emplace_back: %d matching constructors of %s for %d arguments' % (len(cands), T.show(elt), len(args)))
+                ctor = cands[0]
+                cargs = self.call_args(ctor, args, fc)
+                cname = self.request(ctor['id'])
+                return '%s(%s)' % (cname, ', '.join([slot] + cargs))
             if name in ('push_back', 'emplace_back'):
                 if len(args) != 1:
                     raise Unsupported('emplace_back with %d args' % len(args))
@@ -2442,6 +2490,8 @@ class Emitter(Unit):
             t0 = T.strip_ref(self.ntype(args[0], fc.fid))
             if t0[0] == 'p':
                 return '(%s %s %s)' % (self.expr(args[0], fc), name[8:], self.expr(args[1], fc))
+        if name == 'hardware_concurrency':
+            return '__verif_hardware_concurrency()'
         if name in ('Sqrt', 'sqrtf') or (name == 'sqrt' and self.cfg.get('sqrt_uninterpreted')):
             t = T.strip_const(self.ntype(e, fc.fid))
             return '__verif_sqrt_%s(%s)' % (t[1], self.expr(args[0], fc))
@@ -2466,6 +2516,25 @@ class Emitter(Unit):
         c0 = self.skip_wrappers(cmp)
         while c0.get('kind') == 'ImplicitCastExpr':
             c0 = c0['inner'][0]
+        if name == 'sort' and c0.get('kind') == 'LambdaExpr':
+            self.bind_lambdas([cmp])
+            recid = c0['inner'][0]['id']
+            ct = self.new_temp(fc, ('lam', '', recid))
+            closexpr = self.e_LambdaExpr(c0, fc)
+            op = None
+            for x in walk(c0['inner'][0]):
+                if x.get('kind') == 'CXXMethodDecl' and x.get('name') == 'operator()' and has_body(x) and not self.is_pattern_fn(x['id']):
+                    ps = [c for c in x['inner'] if c.get('kind') == 'ParmVarDecl']
+                    if len(ps) == 2 and all(self.ctype(self.unconst(T.strip_ref(self.ntype(p, x['id'])))) == elc for p in ps):
+                        op = x
+            if op is None:
+                raise Unsupported('std::sort: no matching instantiated comparator call operator')
+            cn = self.request(op['id'])
+            ps = [c for c in op['inner'] if c.get('kind') == 'ParmVarDecl']
+            pa = ['(%s *)a' % elc if T.is_ref(self.ntype(ps[0], op['id'])) else '(*a)', '(%s *)b' % elc if T.is_ref(self.ntype(ps[1], op['id'])) else '(*b)']
+            closc = 'struct ' + self.need_closure(recid)
+            self.adapters.append('static inline _Bool %s(const void *clos, const %s *a, const %s *b) { return %s((const %s *)clos, %s, %s); }' % (ad, elc, elc, cn, closc, pa[0], pa[1]))
+            return 'STD_SORT(%s, %s, %s, %s, (%s = %s, &%s))' % (elc, first, last, ad, ct, closexpr, ct)
         if name == 'sort':
             if c0.get('kind') != 'DeclRefExpr' or c0['referencedDecl']['kind'] not in FUNC_KINDS:
                 raise Unsupported('std::sort comparator is not a plain function')
@@ -2474,7 +2543,7 @@ class Emitter(Unit):
             ps = [c for c in fd['inner'] if c.get('kind') == 'ParmVarDecl']
             a = ['a' if T.is_ref(self.ntype(ps[0], fd['id'])) else '(*a)', 'b' if T.is_ref(self.ntype(ps[1], fd['id'])) else '(*b)']
             self.adapters.append('static inline _Bool %s(const void *clos, const %s *a, const %s *b) { (void)clos; return %s(%s, %s); }' % (ad, elc, elc, cn, a[0], a[1]))
-            return 'STD_SORT(%s, %s, %s, %s)' % (elc, first, last, ad)
+            return 'STD_SORT(%s, %s, %s, %s, 0)' % (elc, first, last, ad)
         # lower_bound / upper_bound (first, last, value, comp)
         val = args[2]
         vt = self.unconst(T.strip_ref(self.ntype(val, fc.fid)))
